@@ -33,6 +33,9 @@ theorem presU : Pres true UJ where
   mkS := fun ctx p sid _ _ h => by
     show (createStream ctx p sid).vUid = false
     rw [createStream_vUid]; exact h
+  cancel := fun p w _ h => by
+    show (cancelCaller p w).vUid = false
+    simp only [cancelCaller]; split <;> exact h
   write := fun p sid d _ h => by
     show ((write p sid d).getD p).vUid = false
     simp only [write]; split
@@ -163,6 +166,10 @@ theorem presE : Pres false EJ where
   close := fun ctx s tat tx _ hc h => transmit_ej ctx hc s tat tx h
   mkS := fun ctx p sid _ _ h => by
     simp only [createStream]; split <;> exact EJ.congr h rfl rfl
+  cancel := fun p w _ h => by
+    simp only [cancelCaller]; split
+    · exact EJ.congr h rfl rfl
+    · exact h
   write := fun p sid d _ h => by
     simp only [write]; split
     · simpa using h
